@@ -92,11 +92,16 @@ def _selection_vcs(name: str, fq: List[str], ex: pyvc.Exec, df_in: fv.SymDF, out
             vcs.append(core.VC(f"{name}.noraise", [to_z3(c) for c in o.pc] + (pre or []), z3.BoolVal(False), "vc", fq, mv, note=f"raises {o.exc}"))
     for pcond, exc, where in ex.raised:
         vcs.append(core.VC(f"{name}.noraise_inner", [to_z3(c) for c in pcond] + (pre or []), z3.BoolVal(False), "vc", fq, mv, note=f"{where} raises {exc}"))
+    for pv in ex.vcs:
+        vcs.append(core.VC(pv.name, pv.hyps + list(ex.facts) + extra_hyps + (pre or []), pv.goal, "vc", fq, mv, note=pv.note))
     rets = [o for o in outs if o.kind == "ret"]
     if not rets:
         raise pyvc.Unsupported("filter never returns")
     for i, o in enumerate(rets):
         out = o.value
+        if len(rets) > 1:
+            vcs.append(core.VC(f"{name}.path{i}.guard.reachable", [to_z3(c) for c in o.pc] + list(ex.facts) + extra_hyps,
+                               z3.BoolVal(False), "vacuity", fq, note="the path condition, the assumed contracts and the preconditions are jointly satisfiable"))
         if not isinstance(out, fv.SymDF):
             raise pyvc.Unsupported(f"filter returns {type(out).__name__}")
         hyps = [to_z3(c) for c in o.pc] + list(ex.facts) + extra_hyps + (pre or [])
@@ -157,6 +162,32 @@ def filter_unit(cls: str, variant: str) -> List[core.VC]:
         members = pyvc.SymSet(z3.IntSort(), "members")
         outs = _run_call(ex, cls, {attr: members}, df, None)
         P = (lambda r: True) if variant == "missing_column" else (lambda r: members.has(df.cols[col].val(r)))
+        return _selection_vcs(name, fq, ex, df, outs, P, extra, before)
+    if cls == "IterationIndexFilter":
+        df = fv.SymDF.base("ev", ENC_COLS)
+        if variant == "missing_column":
+            df = fv.SymDF.base("ev", {c: v for c, v in ENC_COLS.items() if c != "iteration"})
+        before = dict(df.cols)
+        positions = pyvc.SymSet(z3.IntSort(), "selected_positions")
+        outs = _run_call(ex, cls, {"iteration_index": positions}, df, None)
+        if variant == "missing_column":
+            return _selection_vcs(name, fq, ex, df, outs, lambda r: True, extra, before)
+        it = df.cols["iteration"]
+        # ghost: THE ascending enumeration of the iteration values present (same functional contract the code's sorted(unique()) gets)
+        en = fv.sorted_unique(ex, fv.SymSeries(df.uni, it, df.present, "iteration"))
+        w = df.uni.skolem("w")
+        has_m1 = z3.Exists(list(w), to_z3(z_and(df.present(w), to_z3(it.val(w)) == -1)))
+        any_real = z3.Exists(list(w), to_z3(z_and(df.present(w), to_z3(it.val(w)) != -1)))
+        q = df.uni.skolem("q")
+        extra.append(z3.ForAll(list(q), z3.Implies(to_z3(df.present(q)), to_z3(it.val(q)) >= -1)))  # add_iteration: -1 or a ProfilerStep number >= 0
+        nonempty = z3.Exists(list(w), to_z3(df.present(w)))
+        if variant == "nonempty":
+            extra.append(nonempty)
+
+        def P(r):
+            v = to_z3(it.val(r))
+            return z3.Or(z3.Not(any_real), z3.And(v != -1, positions.has(en.pos(v) - z3.If(has_m1, 1, 0))))
+
         return _selection_vcs(name, fq, ex, df, outs, P, extra, before)
     if cls == "TimeRangeFilter":
         df = fv.SymDF.base("ev", ENC_COLS)
@@ -386,6 +417,11 @@ def _bounded_case(seed: int) -> Dict[str, Any]:
         pos = [p for p in present if p != -1]
         chosen = [p for i, p in enumerate(pos) if i in idxl]
         check("IterationIndexFilter", tf.IterationIndexFilter(idx), enc, None, lambda r: r["iteration"] in chosen, dec)
+    else:
+        # no iteration information (only -1) or no rows at all: the frame comes back unchanged
+        check("IterationIndexFilter.no_iterations", tf.IterationIndexFilter(idx), enc, None, lambda r: True, dec)
+    # a member of a composite may receive the empty selection of its predecessor
+    check("Composite.empty_intermediate", tf.CompositeFilter([tf.RankFilter(987654), tf.FirstIterationFilter()]), enc, None, lambda r: False, dec)
     # composite = sequence = intersection, any order; idempotence
     f1, f2, f3 = tf.TimeRangeFilter((a, b)), tf.IterationFilter(its), tf.GPUKernelFilter()
     p1 = lambda r: r["ts"] >= a and r["ts"] + r["dur"] <= b
@@ -421,7 +457,7 @@ def bounded(ctx) -> Dict[str, Any]:
 def units(ctx) -> List[core.Unit]:
     us = []
     for cls, variants in (
-        ("IterationFilter", ["", "missing_column"]), ("RankFilter", ["", "missing_column"]), ("TimeRangeFilter", [""]),
+        ("IterationFilter", ["", "missing_column"]), ("IterationIndexFilter", ["", "missing_column"]), ("RankFilter", ["", "missing_column"]), ("TimeRangeFilter", [""]),
         ("GPUKernelFilter", ["with_symbol_table", "without_symbol_table"]), ("CPUOperatorFilter", ["with_symbol_table", "without_symbol_table"]),
         ("NameFilter", ["encoded_with_symbol_table", "encoded_table_in_constructor", "decoded_name_column", "decoded_s_name_column"]),
         ("MemCopyEventFilter", [""]), ("QueryFilter", ["zero_duration"]),
@@ -433,13 +469,28 @@ def units(ctx) -> List[core.Unit]:
 
 
 def replay(ctx, rec):
+    name = rec.get("name", "")
+    if "IterationIndexFilter" in name and ("indexerror" in name or "noraise" in name):
+        # the counter-model of an IndexError obligation is a frame whose list of iterations is empty: a frame without rows
+        import pandas as pd
+        from hta.common import trace_filter as tf
+
+        df = pd.DataFrame({c: pd.Series([], dtype="int64") for c in ENC_COLS})
+        before = df.copy()
+        try:
+            out = tf.IterationIndexFilter([0])(df)
+        except Exception as e:  # noqa: BLE001
+            return {"confirmed": True, "input": {"frame": "no rows; columns " + ", ".join(ENC_COLS), "filter": "IterationIndexFilter([0])"}, "observed": f"{type(e).__name__}: {e}",
+                    "expected": "a sub-frame of the input (here: no rows)", "how": "the real filter called on an empty frame"}
+        ok = len(out) == 0 and df.equals(before)
+        return {"confirmed": not ok, "input": {"frame": "no rows"}, "observed": {"rows": len(out)}}
     return {"confirmed": False, "why": "row-local counter-model; see the bounded stage for concrete failing frames"}
 
 
 SPEC = Spec(
     prop=PROP,
     level="proof",
-    functions=[(TF, c + ".__call__") for c in ("IterationFilter", "RankFilter", "TimeRangeFilter", "NameStringColumnFilter", "NameIdColumnFilter", "NameFilter",
+    functions=[(TF, c + ".__call__") for c in ("IterationFilter", "IterationIndexFilter", "RankFilter", "TimeRangeFilter", "NameStringColumnFilter", "NameIdColumnFilter", "NameFilter",
                                                "QueryFilter", "GPUKernelFilter", "CPUOperatorFilter", "CompositeFilter", "MemCopyEventFilter")]
               + [(TF, "_filter_gpu_kernels_with_cuda_sync"), (UT, "get_symbol_column_names")],
     units=units,
